@@ -175,6 +175,8 @@ struct Book<T: PMMRable> {
 
 #[derive(Default)]
 struct Stats {
+	/// run `varopen`: reopens that found a replaced size file
+	size_files_replaced: u64,
 	ops: BTreeMap<String, u64>,
 	patterns: BTreeMap<String, u64>,
 	compactions: u64,
@@ -287,6 +289,8 @@ struct Run<'a, T: Kind> {
 	mute: bool,
 	/// `PMMRBackend::new(.., prunable, ..)`: false = the kernel / header MMR flavour
 	prunable: bool,
+	/// run `varopen`: before a reopen the size file of a variable-size data file is replaced
+	tamper_sizes: bool,
 }
 
 impl<'a, T: Kind> Run<'a, T> {
@@ -303,6 +307,62 @@ impl<'a, T: Kind> Run<'a, T> {
 
 	fn open(&mut self) {
 		self.backend = Some(PMMRBackend::new(&self.dir, self.prunable, ProtocolVersion(1), None).unwrap());
+	}
+
+	/// Run `varopen`, backend closed: `pmmr_size.bin` of a variable-size data file is deleted /
+	/// truncated / shifted / extended with a junk entry / zero-filled / replaced by garbage (state
+	/// sync ships no size file; a crash can leave a stale one).  Only replacements whose size sum
+	/// differs from the data file length are kept - those `AppendOnlyFile::open` must notice and
+	/// repair (`rebuild_size_file`), so every observation that follows is still compared with the
+	/// never-pruned reference.  One line tells the driver what the file holds now.
+	fn tamper_size_file(&mut self) {
+		if !self.tamper_sizes || T::elmt_size().is_some() {
+			return;
+		}
+		let path = self.dir.join("pmmr_size.bin");
+		let data_len = std::fs::metadata(self.dir.join("pmmr_data.bin")).map(|m| m.len()).unwrap_or(0);
+		let old = std::fs::read(&path).unwrap_or_default();
+		let n = old.len() / 10;
+		let kind = self.rng.below(7);
+		let (mut name, new): (&str, Vec<u8>) = match kind {
+			0 => ("deleted", vec![]),
+			1 => {
+				let k = (1 + self.rng.below(3) as usize).min(n);
+				("truncated", old[..10 * (n - k)].to_vec())
+			}
+			2 => ("first-entry-dropped", old[10.min(old.len())..].to_vec()),
+			3 => {
+				let mut v = old.clone();
+				v.extend_from_slice(&(self.rng.below(100_000)).to_be_bytes());
+				v.extend_from_slice(&(self.rng.range(1, 300) as u16).to_be_bytes());
+				("junk-entry-appended", v)
+			}
+			4 => ("zero-filled", vec![0u8; old.len()]),
+			5 => {
+				let k = self.rng.range(1, n as u64 + 3) as usize;
+				("garbage", self.rng.bytes(10 * k))
+			}
+			_ => ("untouched", old.clone()),
+		};
+		let sum: u64 = new.chunks_exact(10).map(|c| u16::from_be_bytes([c[8], c[9]]) as u64).sum();
+		let new = if name != "untouched" && sum == data_len {
+			// not noticeable by `open` (its check is the sum only): outside what the property promises
+			name = "same-sum-skipped";
+			old.clone()
+		} else {
+			new
+		};
+		if name == "deleted" {
+			let _ = std::fs::remove_file(&path);
+		} else {
+			std::fs::write(&path, &new).unwrap();
+		}
+		self.st.op(&format!("sizefile:{}", name));
+		if new != old {
+			self.st.size_files_replaced += 1;
+		}
+		self.emit(&format!("store sizefile {}", hex(&new)), "ok");
+		self.hist.push(format!("sizefile {}", name));
 	}
 
 	fn fresh(&mut self) {
@@ -655,6 +715,7 @@ impl<'a, T: Kind> Run<'a, T> {
 
 	fn reopen(&mut self) {
 		self.backend = None;
+		self.tamper_size_file();
 		self.open();
 		self.empty_data_pending = false;
 		self.emit("store reopen", "ok");
@@ -2193,8 +2254,9 @@ impl<'a, T: Kind> Run<'a, T> {
 				self.bk.chain.push(b);
 			}
 			self.np_observe(true);
-			if self.rng.chance(1, 5) {
+			if self.rng.chance(1, if self.tamper_sizes { 2 } else { 5 }) {
 				self.backend = None;
+				self.tamper_size_file();
 				self.open();
 				self.emit("store reopen", "ok");
 				self.st.op("reopen");
@@ -2614,6 +2676,27 @@ fn prune_list_stream(out: &mut Out, rng: &mut Rng, st: &mut Stats, rounds: u64, 
 			"store pl_total",
 			&format!("{} {}", pl.get_total_shift(), pl.get_total_leaf_shift()),
 		);
+		// malformed appends: at / left of the last root the "prune list append only" assertion
+		// fires (a panic, the list untouched); one position right of it is fine
+		let max = pl.to_vec().last().cloned().unwrap_or(0);
+		if max > 0 {
+			let mut tries = vec![max - 1, rng.below(max)];
+			if rng.chance(1, 2) {
+				tries.push(max);
+			}
+			for p in tries {
+				match catch(AssertUnwindSafe(|| pl.append(p))) {
+					Ok(_) => {
+						st.op("pl_try(ok)");
+						out.line(&format!("store pl_try {}", p), &pl_str(&pl))
+					}
+					Err(_) => {
+						st.op("pl_try(panic)");
+						out.line(&format!("store pl_try {}", p), "panic")
+					}
+				}
+			}
+		}
 		// flush to a file and reopen: caches rebuilt from the bitmap
 		let path = dir.join(format!("pl_{}.bin", round));
 		let bitmap: Bitmap = pl.to_vec().iter().map(|x| *x as u32).collect();
@@ -2706,6 +2789,7 @@ fn new_run<'a, T: Kind>(out: &'a mut Out, rng: &'a mut Rng, st: &'a mut Stats, d
 		readded_protected: BTreeSet::new(),
 		mute: false,
 		prunable: true,
+		tamper_sizes: false,
 	}
 }
 
@@ -3231,6 +3315,138 @@ fn rough<T: Kind>(out: &mut Out, rng: &mut Rng, histories: u64, steps: u64) {
 	out.raw(&format!("#STAT [rough-{}] out-of-protocol ops: {}", T::NAME, v.join(" ")));
 }
 
+/// `store varopen`: variable-size data files reopened over a missing / stale size file
+/// (`AppendOnlyFile::open`: `sum_sizes() != size` -> `rebuild_size_file` -> `init`), on the
+/// non-prunable backend (the kernel MMR flavour) and on the prunable one, inside ordinary
+/// protocol-respecting histories (rewinds, discards, compactions, further appends after the repair).
+fn run_varopen(out: &mut Out, rng: &mut Rng, histories: u64, units: u64, max_leaves: u64) {
+	let work = std::env::var("VERIF_WORK").expect("VERIF_WORK not set");
+	let mut st = Stats::default();
+	{
+		let dir = PathBuf::from(&work).join("varopen_np");
+		let mut run: Run<'_, VarElem> = new_run(out, rng, &mut st, dir);
+		run.tamper_sizes = true;
+		for _ in 0..histories {
+			run.np_history(units);
+		}
+	}
+	print_stats(out, "varopen-np", &st);
+	let replaced_np = st.size_files_replaced;
+	let mut st2 = Stats::default();
+	{
+		let dir = PathBuf::from(&work).join("varopen_pr");
+		let mut run: Run<'_, VarElem> = new_run(out, rng, &mut st2, dir);
+		run.tamper_sizes = true;
+		for _ in 0..histories {
+			run.history(units, max_leaves);
+		}
+	}
+	print_stats(out, "varopen-prunable", &st2);
+	out.raw(&format!(
+		"#STAT [varopen] reopens over a replaced size file: non-prunable={} prunable={} (kinds in the ops lists: sizefile:*)",
+		replaced_np, st2.size_files_replaced
+	));
+}
+
+/// Model tie only: a size file with the RIGHT sum and WRONG entries (the sizes of two neighbouring
+/// elements of different length swapped) is not noticed by `open` - its check is the sum.  What the
+/// getters then return is whatever the entries address; the model (`VarFile.ofDisk`) says the same.
+fn varopen_same_sum(out: &mut Out, rng: &mut Rng, rounds: u64) {
+	let work = std::env::var("VERIF_WORK").expect("VERIF_WORK not set");
+	let dir = PathBuf::from(work).join("varopen_same_sum");
+	let mut done = 0u64;
+	for _ in 0..rounds {
+		let _ = std::fs::remove_dir_all(&dir);
+		std::fs::create_dir_all(&dir).unwrap();
+		let mut be: PMMRBackend<VarElem> = PMMRBackend::new(&dir, true, ProtocolVersion(1), None).unwrap();
+		out.line("store new var", "ok");
+		let mut size = 0u64;
+		let n = rng.range(2, 9);
+		for _ in 0..n {
+			let e = VarElem::gen(rng);
+			let res = {
+				let mut p = PMMR::at(&mut be, size);
+				p.push(&e).map(|_| p.size)
+			};
+			let rhs = match res {
+				Ok(sz) => {
+					size = sz;
+					sz.to_string()
+				}
+				Err(_) => "err".to_string(),
+			};
+			out.line(&format!("store xpush {}", hex(&e.ser())), &rhs);
+		}
+		out.line("store sync", if be.sync().is_ok() { "ok" } else { "err" });
+		drop(be);
+		let path = dir.join("pmmr_size.bin");
+		let mut bytes = std::fs::read(&path).unwrap();
+		let cnt = bytes.len() / 10;
+		// first neighbouring pair with different sizes
+		let mut swapped = false;
+		for i in 0..cnt.saturating_sub(1) {
+			let s0 = u16::from_be_bytes([bytes[10 * i + 8], bytes[10 * i + 9]]);
+			let s1 = u16::from_be_bytes([bytes[10 * i + 18], bytes[10 * i + 19]]);
+			if s0 != s1 {
+				let o0 = u64::from_be_bytes(bytes[10 * i..10 * i + 8].try_into().unwrap());
+				bytes[10 * i + 8..10 * i + 10].copy_from_slice(&s1.to_be_bytes());
+				bytes[10 * i + 10..10 * i + 18].copy_from_slice(&(o0 + s1 as u64).to_be_bytes());
+				bytes[10 * i + 18..10 * i + 20].copy_from_slice(&s0.to_be_bytes());
+				swapped = true;
+				break;
+			}
+		}
+		if swapped {
+			done += 1;
+		}
+		std::fs::write(&path, &bytes).unwrap();
+		out.line(&format!("store sizefile {}", hex(&bytes)), "ok");
+		let mut be: PMMRBackend<VarElem> = PMMRBackend::new(&dir, true, ProtocolVersion(1), None).unwrap();
+		out.line("store reopen", "ok");
+		for i in 0..pmmr::n_leaves(size) {
+			let p = pmmr::insertion_to_pmmr_index(i);
+			let d = catch(AssertUnwindSafe(|| PMMR::at(&mut be, size).get_data(p)));
+			let rhs = match d {
+				Ok(Some(e)) => hex(&e.ser()),
+				Ok(None) => "none".to_string(),
+				Err(_) => "panic".to_string(),
+			};
+			out.line(&format!("store xdata {}", p), &rhs);
+		}
+		// appends after the unnoticed damage continue from the (wrong) last entry
+		for _ in 0..2 {
+			let e = VarElem::gen(rng);
+			let res = {
+				let mut p = PMMR::at(&mut be, size);
+				p.push(&e).map(|_| p.size)
+			};
+			let rhs = match res {
+				Ok(sz) => {
+					size = sz;
+					sz.to_string()
+				}
+				Err(_) => "err".to_string(),
+			};
+			out.line(&format!("store xpush {}", hex(&e.ser())), &rhs);
+		}
+		out.line("store sync", if be.sync().is_ok() { "ok" } else { "err" });
+		for i in 0..pmmr::n_leaves(size) {
+			let p = pmmr::insertion_to_pmmr_index(i);
+			let d = catch(AssertUnwindSafe(|| PMMR::at(&mut be, size).get_data(p)));
+			let rhs = match d {
+				Ok(Some(e)) => hex(&e.ser()),
+				Ok(None) => "none".to_string(),
+				Err(_) => "panic".to_string(),
+			};
+			out.line(&format!("store xdata {}", p), &rhs);
+		}
+	}
+	out.raw(&format!(
+		"#STAT [varopen-same-sum] rounds={} with a swapped pair of neighbouring size entries={} (model tie only: open's consistency check is the sum)",
+		rounds, done
+	));
+}
+
 fn main() {
 	if std::env::var("VERIF_STORE_LOUD").is_err() {
 		quiet_panics();
@@ -3282,6 +3498,11 @@ fn main() {
 		run_np::<VarElem>(&mut out, &mut rng, h, u);
 		run_np::<Elem>(&mut out, &mut rng, h, u);
 	}
+	if mode == "varopen" || mode == "all" {
+		let (h, u, l) = if thorough { (30, 40, 120) } else { (10, 24, 80) };
+		run_varopen(&mut out, &mut rng, h, u, l);
+		varopen_same_sum(&mut out, &mut rng, if thorough { 200 } else { 60 });
+	}
 	if mode == "rough" || mode == "all" {
 		let (h, n) = if thorough { (20, 600) } else { (6, 400) };
 		rough::<Elem>(&mut out, &mut rng, h, n);
@@ -3295,9 +3516,11 @@ fn main() {
 		let rounds = if thorough { 400 } else { 60 };
 		prune_list_stream(&mut out, &mut rng, &mut st, rounds, &dir);
 		out.raw(&format!(
-			"#STAT [prunelist] {} direct PruneList sequences, {} appends (leaves and aligned subtree roots), every position queried, flush+open each",
+			"#STAT [prunelist] {} direct PruneList sequences, {} appends (leaves and aligned subtree roots), every position queried, flush+open each; malformed appends at / left of the last root: {} refused by the assertion (panic), {} accepted (one right of the last root)",
 			rounds,
-			st.ops.get("pl_append").cloned().unwrap_or(0)
+			st.ops.get("pl_append").cloned().unwrap_or(0),
+			st.ops.get("pl_try(panic)").cloned().unwrap_or(0),
+			st.ops.get("pl_try(ok)").cloned().unwrap_or(0)
 		));
 	}
 	out.flush();
